@@ -719,3 +719,45 @@ Example C07_example_operators_conditionals :
   binfam e = true /\ tok_ok O e = true /\ wf e = true /\
   Formatter.contains_nl (Formatter.render (Formatter.fmtd O 10 e 0)) = true.
 Proof. vm_compute. repeat split. Qed.
+
+(* The do-block family (proofs/FmtToksDo.v): format_do_block_multiline against the do-block arm of
+   expr_to_source.  If every statement x and the returned expression satisfy `child_ok` — lam_ok x, tok_ok x,
+   and at every indentation toks (layout of x) = toks (one-line text of x) — then the block's laid-out text has
+   exactly the chunks of its one-line text (same chunks, before canon).  protect_leading_minus (decided on the
+   LAID-OUT text, "no statement before") agrees with the one-line printer's rule (decided on the one-line text,
+   statement index) because no layout changes how a text starts (FmtItems.lead_fmtd): this needs lam_ok, the
+   repaired do-block rule and the repaired policy.  A family theorem with the children's equalities as
+   hypotheses: it is not yet folded into the recursive fragment `binfam` (the fragment theorem would need
+   lam_ok / fx_dominus / policy_new throughout). *)
+Require Import Blots.proofs.FmtToksDo.
+Theorem C07_layout_view_do_block_partial : forall oi fx numtxt keepc w stmts ret i,
+  fx_dominus fx = true ->
+  plain_items stmts = true ->
+  tok_ok (printer_oracles fx (policy_new oi) numtxt keepc) (EDo stmts (Cm [] ret None)) = true ->
+  Forall (fun c => child_ok oi fx numtxt keepc w (cnode c)) stmts -> child_ok oi fx numtxt keepc w ret ->
+  toks (Formatter.render (Formatter.fmtd (printer_oracles fx (policy_new oi) numtxt keepc) w (EDo stmts (Cm [] ret None)) i))
+  = toks (print_text fx (policy_new oi) numtxt (EDo stmts (Cm [] ret None))).
+Proof. intros oi fx numtxt keepc w stmts ret i Hd. exact (do_family oi fx numtxt keepc w Hd stmts ret i). Qed.
+Check C07_layout_view_do_block_partial : forall oi fx numtxt keepc w stmts ret i,
+  fx_dominus fx = true ->
+  plain_items stmts = true ->
+  tok_ok (printer_oracles fx (policy_new oi) numtxt keepc) (EDo stmts (Cm [] ret None)) = true ->
+  Forall (fun c => child_ok oi fx numtxt keepc w (cnode c)) stmts -> child_ok oi fx numtxt keepc w ret ->
+  toks (Formatter.render (Formatter.fmtd (printer_oracles fx (policy_new oi) numtxt keepc) w (EDo stmts (Cm [] ret None)) i))
+  = toks (print_text fx (policy_new oi) numtxt (EDo stmts (Cm [] ret None))).
+Print Assumptions C07_layout_view_do_block_partial.
+
+(* the hypotheses are satisfiable: a block whose second statement starts with `-` (protected in both
+   printers) and whose statements are in the operator / conditional fragment (child_ok from
+   C07_layout_view_operators_conditionals_partial) *)
+Example C07_example_do_block :
+  let O := printer_oracles FX_ALL (policy_new fixed_opinfo) num_text true in
+  let s1 := EAssign "t" (EBin Add (EId "a") (EId "b")) in
+  let s2 := EBin Subtract (EUn Negate (EId "t")) (EId "c") in
+  let r := ECond (EId "ok") (EId "t") (EUn Negate (EId "t")) in
+  let e := EDo [Cm [] s1 None; Cm [] s2 None] (Cm [] r None) in
+  fx_dominus FX_ALL = true /\ tok_ok O e = true /\ wf e = true /\
+  (binfam s1 && binfam s2 && binfam r && lam_ok s1 && lam_ok s2 && lam_ok r)%bool = true /\
+  toks (Formatter.render (Formatter.fmtd O 10 e 0)) = toks (print_text FX_ALL (policy_new fixed_opinfo) num_text e) /\
+  existsb (String.eqb "(") (toks (Formatter.render (Formatter.fmtd O 10 e 0))) = true.
+Proof. vm_compute. repeat split. Qed.
